@@ -13,6 +13,8 @@ import (
 	"io"
 	"math/big"
 	"os"
+	"reflect"
+	"sort"
 	"testing"
 
 	"github.com/sirupsen/logrus"
@@ -223,3 +225,14 @@ func I64i(name string) int64  { return int64(next(name).Uint64()) }
 // to differ (no exploration of the branch where two distinct-looking inputs coincide,
 // unless the path condition forces them equal). A stated bound of the harness.
 func HashForkOff() {}
+
+// Methods lists the exported methods of obj's dynamic type, sorted by name.
+func Methods(obj interface{}) []string {
+	t := reflect.TypeOf(obj)
+	var out []string
+	for i := 0; i < t.NumMethod(); i++ {
+		out = append(out, t.Method(i).Name)
+	}
+	sort.Strings(out)
+	return out
+}
